@@ -101,6 +101,12 @@ def _solve_one(idx) -> Dict[str, Any]:
     if ob.expect_sat:
         return _solve_cover(idx, ob, t0)
     out: Dict[str, Any] = {"idx": idx, "verdict": "unknown", "solver": None, "time": 0.0, "model": None, "reason": ""}
+    if getattr(ob, "hint", None) == "cvc5":
+        # this obligation class was discharged by cvc5 when the ledger was recorded: ask cvc5 first
+        r = _external(ob, only="cvc5")
+        if r is not None and r[0] == "unsat":
+            out.update(verdict="unsat", solver=r[1], time=time.time() - t0)
+            return out
     try:
         s = _build_solver(ob, Z3_TIMEOUT_MS)
         r = s.check()
@@ -144,6 +150,25 @@ def _solve_one(idx) -> Dict[str, Any]:
             os.unlink(path)
     out["time"] = time.time() - t0
     return out
+
+
+def _external(ob, only=None):
+    smt2 = to_smt2(ob)
+    with tempfile.NamedTemporaryFile("w", suffix=".smt2", delete=False) as f:
+        f.write("(set-logic ALL)\n" + smt2)
+        path = f.name
+    try:
+        for cmd, name, tmo in ((["/usr/bin/cvc5", "--tlimit", str(CVC5_TIMEOUT_S * 1000), path], "cvc5 1.0.3", CVC5_TIMEOUT_S + 5),):
+            try:
+                p = subprocess.run(cmd, capture_output=True, text=True, timeout=tmo)
+                first = (p.stdout.strip().splitlines() or [""])[0].strip()
+                if first in ("unsat", "sat"):
+                    return first, name
+            except (subprocess.TimeoutExpired, FileNotFoundError):
+                pass
+    finally:
+        os.unlink(path)
+    return None
 
 
 def _solve_cover(idx, ob, t0):
